@@ -589,49 +589,61 @@ func runC11OutcomeKept(c *Ctx) {
 		return
 	}
 	n := 0
-	for _, rb := range instrsIn(f, isInvokeNamed("Rollback")) {
-		// the failure branch the rollback runs in: if <load of an error cell> != nil
-		for _, b := range f.Blocks {
-			iff, ok := b.Instrs[len(b.Instrs)-1].(*ssa.If)
+	for _, h := range c.P.deepFind(f, isInvokeNamed("Rollback"), 1) {
+		rb, isVal := h.In.(ssa.Value)
+		if !isVal {
+			continue
+		}
+		g := h.In.Parent()
+		res := g.Signature.Results()
+		if res.Len() == 0 || !types.Identical(res.At(res.Len()-1).Type(), errorType) {
+			continue
+		}
+		n++
+		// what the function can return as its error: through φ, extraction, and every store into a result cell
+		var bad ssa.Instruction
+		for _, b := range g.Blocks {
+			ret, ok := b.Instrs[len(b.Instrs)-1].(*ssa.Return)
 			if !ok {
 				continue
 			}
-			bo, ok := iff.Cond.(*ssa.BinOp)
-			if !ok || bo.Op != token.NEQ {
-				continue
-			}
-			ld, ok := bo.X.(*ssa.UnOp)
-			if !ok || ld.Op != token.MUL || !types.Identical(ld.Type(), errorType) {
-				continue
-			}
-			cell := ld.X
-			t := b.Succs[0]
-			if !(t == rb.Block() || t.Dominates(rb.Block())) {
-				continue
-			}
-			n++
-			var bad ssa.Instruction
-			for _, bb := range f.Blocks {
-				if bb != t && !t.Dominates(bb) {
-					continue
+			seen := map[ssa.Value]bool{}
+			var walk func(v ssa.Value, d int)
+			walk = func(v ssa.Value, d int) {
+				if v == nil || d == 0 || seen[v] {
+					return
 				}
-				for _, in := range bb.Instrs {
-					if st, isSt := in.(*ssa.Store); isSt && st.Addr == cell {
-						bad = in
+				seen[v] = true
+				if v == rb {
+					bad = ret
+					return
+				}
+				switch x := v.(type) {
+				case *ssa.Phi:
+					for _, e := range x.Edges {
+						walk(e, d-1)
 					}
+				case *ssa.Extract:
+					walk(x.Tuple, d)
+				case *ssa.UnOp:
+					if a, isA := x.X.(*ssa.Alloc); isA {
+						for _, sv := range storedValues(a) {
+							walk(sv, d-1)
+						}
+					}
+				case *ssa.MakeInterface:
+					walk(x.X, d)
+				case *ssa.ChangeInterface:
+					walk(x.X, d)
 				}
 			}
-			pos := instrPos(rb)
-			detail := ""
-			if bad != nil {
-				pos = instrPos(bad)
-				detail = "assigned " + trunc(termOf(bad.(*ssa.Store).Val).String(), 100)
-			}
-			c.Check(bad == nil, "O12", "MPT", funcKey(f)+": the bind error is not overwritten on the failure branch", pos, "no assignment to the outcome after the bind failed",
-				"the error of the failed bind is overwritten on the branch that rolls back ("+detail+"): when that value is nil the deferred status update marks the request Succeeded and the pod bound although it was rolled back, and the request is never retried")
+			walk(ret.Results[res.Len()-1], 6)
 		}
+		pos := instrPos(h.In)
+		c.Check(bad == nil, "O12", "MPT", funcKey(g)+": the outcome reported for a failed bind is the bind's error, never the rollback's result", pos, "the rollback's result does not reach the returned error",
+			"the result of Rollback can become the function's returned error: when the bind failed and the rollback succeeded that value is nil, the deferred status update marks the request Succeeded and the pod bound although it was rolled back, and the request is never retried")
 	}
-	c.Floor("O12", "MPT failure branches with a rollback", n, 1)
+	c.Floor("O12", "MPT rollbacks after a failed bind", n, 1)
 }
 
 // runC11ReservedForIdentity (O14): a ResourceClaim is reserved for a POD INSTANCE. UpsertReservedFor leaves the list
